@@ -141,6 +141,11 @@ def draw_structure(rng):
         out = {}
         for c in children:
             spec = attrs(3)
+            if rng.random() < 0.1:
+                # a randomizer whose generate() itself builds a (small) random tree, followed
+                # by an attribute that uses the macros of the *outer* node
+                spec["ka_nested"] = {"nested": True}
+                spec["kz_idx"] = {"fixed": "z{idx}-{hier_idx}"}
             spec["t"] = {"fixed": c}
             if rng.random() < 0.85:
                 spec[":count"] = count_spec()
@@ -190,6 +195,16 @@ def build_structure(desc, tg):
             return tg.SparseBoolRandomizer(probability=float(a["p"]))
         if "sample" in a:
             return tg.SampleRandomizer(a["sample"], counts=a["counts"], probability=float(a["p"]))
+        if "nested" in a:
+            class NestedBuild(tg.Randomizer):
+                def generate(self):
+                    import nutree
+
+                    nutree.Tree.build_random_tree({"relations": {"__root__": {
+                        "inner": {":count": 3, "title": "i{idx}/{hier_idx}"}}}})
+                    return "nested"
+
+            return NestedBuild()
         raise KeyError(a)
 
     def conv_spec(spec):
@@ -251,6 +266,10 @@ def check_value(name, a, val, present, macros, fail):
         if not present or val != exp or type(val) is not type(exp):
             fail("attr-fixed", f"attribute {name} is {val!r} ({'present' if present else 'absent'})"
                                f", definition says {exp!r}")
+        return
+    if "nested" in a:
+        if not present or val != "nested":
+            fail("attr-value", f"{name}={val!r}, the randomizer returned 'nested'")
         return
     p = float(a["p"])
     if not present:
@@ -396,8 +415,43 @@ def prng_case(base_seed, index, tier, nt):
             pass
         if desc.get("name") and tree.name != desc["name"]:
             viol.append(("name", f"tree name {tree.name!r}", "build"))
+    rebuilt = False
+    if tree is not None and not viol and rng.random() < 0.35:
+        # the caller edits the *same* definition object in place and builds again: the
+        # second tree must follow the edited definition (nothing may be remembered)
+        rebuilt = True
+        p_ = "__root__"  # (never the self-containing relation: its count must stay 0..1)
+        c_ = sorted(desc["relations"][p_])[0]
+        new_count = rng.choice([0, 1, 3])
+        desc["relations"][p_][c_][":count"] = new_count
+        sd["relations"][p_][c_][":count"] = new_count
+        desc["relations"][p_][c_]["kx"] = {"fixed": f"second-{new_count}"}
+        sd["relations"][p_][c_]["kx"] = f"second-{new_count}"
+        if desc["types"]:
+            t_ = sorted(desc["types"])[0]
+            desc["types"][t_]["ky"] = {"fixed": 77}
+            sd["types"][t_]["ky"] = 77
+        tg.random = sim
+        tree2 = None
+        try:
+            tree2 = cls.build_random_tree(sd)
+        except Exception as e:  # noqa: BLE001
+            viol.append(("build-raised", f"second build_random_tree raised "
+                                         f"{type(e).__name__}: {e}", "rebuild"))
+        finally:
+            tg.random = old
+        if tree2 is not None:
+            def fail2(check, detail):
+                viol.append((check, "after editing the definition in place: " + detail,
+                             "rebuild"))
+                raise _Fail()
+
+            try:
+                check_tree(tree2, desc, typed, cls, fail2)
+            except _Fail:
+                pass
     stats = {"nodes": nodes, "prng_calls": dict(sim.calls), "edge_draws": sim.edge_draws,
-             "edge": edge, "typed": typed}
+             "edge": edge, "typed": typed, "rebuilt": rebuilt}
     return viol, stats, desc, seed
 
 
